@@ -12,10 +12,13 @@ import (
 // PlusKinds are the features of the wider class W+ (C09 only).
 var PlusKinds = []string{"ptrIntoOperation", "ptrNestedInline", "ptrMissingPosition", "ptrInPtrTarget", "ptrCycle", "auxBackRef", "collisionWithRefs",
 	"danglingLocalDef", "danglingRemoteFile", "danglingRemoteFragment", "recursiveContainers", "wholeDocSchema", "paramRefToNonParam", "responseRefToNonResponse",
-	"ptrToNonSchema", "refWithSiblings", "absoluteSelfRef", "itemsRef", "deepNesting", "pathItemRefDangling", "selfRefDefinition", "ptrToSelf"}
+	"ptrToNonSchema", "refWithSiblings", "absoluteSelfRef", "itemsRef", "deepNesting", "pathItemRefDangling", "selfRefDefinition", "ptrToSelf", "sharedRefToRemote", "sharedRefToMissing"}
 
 // MustErrorKinds: planted at a position reachable from an operation, Flatten must return an error (ContinueOnError off).
-var MustErrorKinds = map[string]bool{"ptrMissingPosition": true, "ptrCycle": true, "danglingRemoteFile": true, "danglingRemoteFragment": true}
+var MustErrorKinds = map[string]bool{"ptrMissingPosition": true, "ptrCycle": true, "danglingRemoteFile": true, "danglingRemoteFragment": true, "sharedRefToMissing": true}
+
+// ResolvablePlusKinds never make a bundle unresolvable: they may be added to bundles used for load-fault enumeration.
+var ResolvablePlusKinds = []string{"sharedRefToRemote", "wholeDocSchema", "auxBackRef", "ptrIntoOperation", "ptrNestedInline", "recursiveContainers", "absoluteSelfRef"}
 
 // useRef makes ref reachable from an operation through the given holder.
 func (b *Bundle) useRef(ref string, holder string) {
@@ -136,6 +139,29 @@ func (b *Bundle) Plus(kind string) {
 		b.Place(Pick(b.rng, BundleContainers), b.Hold(Pick(b.rng, BundleHolders[1:]), jx.Obj{"$ref": b.Target(Pick(b.rng, BundleTargets), "")}, 6+b.rng.IntN(4), ""), "")
 	case "pathItemRefDangling":
 		jx.AsObj(b.Root["paths"])[b.newPath()] = jx.Obj{"$ref": Pick(b.rng, []string{"#/x-nowhere/item", "nofile.json#/x/y", "#/definitions"})}
+	case "sharedRefToRemote", "sharedRefToMissing":
+		// shared objects of the root that are themselves $refs to another document; nothing (or something) uses them
+		f := "sub/a.json"
+		if kind == "sharedRefToMissing" {
+			f = "missing/shared" + k + ".json"
+		} else {
+			b.section(b.aux(f), "responses")["failure"+k] = jx.Obj{"description": b.lbl("fail"), "schema": b.Obj()}
+			b.section(b.aux(f), "parameters")["limit"+k] = jx.Obj{"name": "limit", "in": "query", "type": "integer", "description": b.lbl("lim")}
+		}
+		v := b.Variant
+		if v < 0 {
+			v = b.rng.IntN(3)
+		}
+		switch v % 3 {
+		case 0:
+			b.section(b.Root, "responses")["failure"+k] = jx.Obj{"$ref": f + "#/responses/failure" + k}
+		case 1:
+			b.section(b.Root, "parameters")["limit"+k] = jx.Obj{"$ref": f + "#/parameters/limit" + k}
+		default:
+			b.section(b.Root, "responses")["failure"+k] = jx.Obj{"$ref": f + "#/responses/failure" + k}
+			op := b.Op(b.newPath(), "get", true)
+			jx.AsObj(op["responses"])["500"] = jx.Obj{"$ref": "#/responses/failure" + k}
+		}
 	case "selfRefDefinition":
 		b.Def("Me"+k, jx.Obj{"$ref": "#/definitions/Me" + k})
 		b.useRef("#/definitions/Me"+k, holder)
